@@ -346,6 +346,8 @@ fn sde(w: &[&str]) -> String {
         "any" => go!(AnyShape, |v: AnyShape| v.0),
         "ignored" => go!(serde::de::IgnoredAny, |_| "()".to_string()),
         "picky" => go!(Picky, |v: Picky| v.0),
+        "borrowed" => go!(Borrowed, |v: Borrowed| v.0),
+        "borrowed2" => go!((Borrowed, Borrowed), |v: (Borrowed, Borrowed)| format!("[{},{}]", (v.0).0, (v.1).0)),
         "picky2" => go!((Picky, Picky), |v: (Picky, Picky)| format!("[{},{}]", (v.0).0, (v.1).0)),
         "opt_tup" => go!(Option<(u8, u8)>, |v: Option<(u8, u8)>| match v { None => "N".to_string(), Some(x) => format!("S([{},{}])", x.0, x.1) }),
         _ => "bad-op".into()
@@ -403,6 +405,26 @@ impl<'de> serde::de::Visitor<'de> for PickyVisitor {
 }
 impl<'de> serde::Deserialize<'de> for Picky {
     fn deserialize<D: serde::Deserializer<'de>>(d: D) -> Result<Self, D::Error> { d.deserialize_any(PickyVisitor) }
+}
+
+/// a visitor behind `deserialize_any` that takes strings only as borrows from the input (`&'de str` / `&'de [u8]` fields of an
+/// untagged enum do this): a definite-length string is handed over borrowed in every configuration
+struct Borrowed(String);
+struct BorrowedVisitor;
+impl<'de> serde::de::Visitor<'de> for BorrowedVisitor {
+    type Value = Borrowed;
+    fn expecting(&self, f: &mut core::fmt::Formatter) -> core::fmt::Result { f.write_str("a borrowed string or a number") }
+    fn visit_u64<E>(self, v: u64) -> Result<Borrowed, E> { Ok(Borrowed(format!("u{}", v))) }
+    fn visit_borrowed_str<E>(self, v: &'de str) -> Result<Borrowed, E> { Ok(Borrowed(format!("s{}", hex(v.as_bytes())))) }
+    fn visit_borrowed_bytes<E>(self, v: &'de [u8]) -> Result<Borrowed, E> { Ok(Borrowed(format!("h{}", hex(v)))) }
+    fn visit_seq<A: serde::de::SeqAccess<'de>>(self, mut a: A) -> Result<Borrowed, A::Error> {
+        let mut v = Vec::new();
+        while let Some(x) = a.next_element::<Borrowed>()? { v.push(x.0) }
+        Ok(Borrowed(format!("[{}]", v.join(","))))
+    }
+}
+impl<'de> serde::Deserialize<'de> for Borrowed {
+    fn deserialize<D: serde::Deserializer<'de>>(d: D) -> Result<Self, D::Error> { d.deserialize_any(BorrowedVisitor) }
 }
 
 /// serialises through `Serializer::collect_str` (which needs `alloc`: documented)
@@ -504,8 +526,35 @@ fn tovecs(w: &[&str]) -> String {
 #[cfg(not(feature = "alloc"))]
 fn tovecs(_: &[&str]) -> String { "bad-op".into() }
 
+/// `tokshow <hex>`: the text form (`Display`) of each token of the input, one by one (exists in every configuration, unlike
+/// `Display for Tokenizer`, which needs alloc); `!<class>` where tokenising stops with an error.
+#[cfg(not(feature = "half"))]
+fn tokshow(_: &[&str]) -> String { "bad-op".into() }
+#[cfg(feature = "half")]
+fn tokshow(w: &[&str]) -> String {
+    let input = match w.first().and_then(|h| unhex(h)) { Some(b) => b, None => return "bad-op".into() };
+    let mut out: Vec<String> = Vec::new();
+    for t in minicbor::decode::Tokenizer::new(&input) {
+        match t { Ok(t) => out.push(format!("{}", t)), Err(e) => { out.push(format!("!{}", dclass(&e))); break } }
+    }
+    if out.is_empty() { "-".into() } else { out.join(";") }
+}
+
+/// `ishow <decimal>`: `Display` of the 65-bit `Int` made from the number and of `Token::Int` around it.
+fn ishow(w: &[&str]) -> String {
+    let i = match w.first().and_then(|a| a.parse::<i128>().ok()).and_then(|v| Int::try_from(v).ok()) { Some(i) => i, None => return "bad-op".into() };
+    #[cfg(feature = "half")]
+    let (a, b) = (format!("{}", i), format!("{}", minicbor::data::Token::Int(i)));
+    #[cfg(not(feature = "half"))]
+    let (a, b) = (format!("{}", i), format!("{}", i));
+    let c = format!("{:>24}|{:<24}|{:+}", i, i, i);
+    if a == b { format!("{} {}", a, c) } else { format!("{} token:{} {}", a, b, c) }
+}
+
 fn dispatch(w: &[&str]) -> String {
     match w[0] {
+        "tokshow" => tokshow(&w[1..]),
+        "ishow" => ishow(&w[1..]),
         "tovecs" => tovecs(&w[1..]),
         "sde" => sde(&w[1..]),
         "tencc" => tencc(&w[1..]),
